@@ -127,12 +127,16 @@ Print Assumptions C19_prefix_shapes_rejected.
 
 (* ---- serving requests never alters the trajectory state (model level): the regenerated write-set of everything a request triggers -
    all handler blocks, and the regions of reb_check_exit / reb_simulation_integrate_raw that are control-dependent on a status value a
-   request can set - is {status} (+ the user's own key_callback); the only calls there are sleeps / mutex helpers; no handler steps *)
+   request can set - is {status} (+ the user's own key_callback and the serialisation itself), computed interprocedurally; the functions reached
+   without access to the simulation are all external (libc/pthread) functions of Gen/Statics.v; no handler steps *)
 Theorem C19_requests_preserve_trajectory_state :
   request_triggered_writes = ["field:status"] /\
-  forallb (fun c => existsb (String.eqb c) allowed_request_calls) request_triggered_calls = true /\
+  subset request_triggered_writes allowed_request_effects = true /\
+  subset request_triggered_calls external_calls_default = true /\
   request_triggered_regions = 3 /\
   request_guard_constants = ["REB_STATUS_PAUSED"; "REB_STATUS_RUNNING"; "REB_STATUS_SCREENSHOT"; "REB_STATUS_SINGLE_STEP"; "REB_STATUS_USER"] /\
+  forallb (fun h => subset (snd (fst h)) allowed_handler_effects && subset (snd h) external_calls_default) handler_effects = true /\
+  map (fun h => fst (fst h)) handler_effects = map fst handlers /\
   forallb (forallb srv_act_ok) (blocks (gen_system false)) = true.
 Proof. exact gen_request_write_set. Qed.
 Print Assumptions C19_requests_preserve_trajectory_state.
@@ -141,6 +145,29 @@ Theorem C19_server_thread_writes_only_status : forall s x, reach gen_system s ->
   nth_error (cur_block gen_system false (tS s)) (pco (tS s)) = Some x -> srv_act_ok x = true.
 Proof. exact gen_server_actions_ok. Qed.
 Print Assumptions C19_server_thread_writes_only_status.
+
+(* ---- teardown.  The server thread is stopped (cancelled and JOINED) before any memory of the simulation is released:
+   reb_simulation_free_pointers begins with reb_simulation_stop_server (empty use-after-free window over the regenerated sequence),
+   reb_simulation_free releases the struct after that, and inside reb_simulation_stop_server cancel < join < free(server_data),
+   with no release before the join *)
+Theorem C19_teardown_joins_before_free :
+  uaf_window true teardown_free_pointers = [] /\
+  hd "" teardown_free_pointers = "stop_server" /\
+  teardown_free = ["opaque:reb_simulation_free_pointers"; "free:<simulation>"] /\
+  index_of "call:pthread_cancel" teardown_stop_server < index_of "call:pthread_join" teardown_stop_server /\
+  index_of "call:pthread_join" teardown_stop_server < index_of "free:server_data" teardown_stop_server /\
+  index_of "free:server_data" teardown_stop_server < length teardown_stop_server /\
+  uaf_window true (filter (fun x => negb (String.eqb x "call:pthread_join")) (map (fun x => if String.eqb x "call:pthread_join" then "stop_server" else x) teardown_stop_server)) = [].
+Proof. exact gen_teardown. Qed.
+Print Assumptions C19_teardown_joins_before_free.
+
+(* in the run of the freeing thread no action releases memory while the server thread is alive; the pre-9350489 order is rejected *)
+Theorem C19_teardown_no_release_while_server_alive :
+  (forall x b, In (x, b) (teardown_run true teardown_free_pointers) -> b = false) /\
+  uaf_window true ["free:simulationarchive_filename"; "free:display_settings"; "stop_server"; "free:particles"] =
+  ["free:simulationarchive_filename"; "free:display_settings"].
+Proof. exact (conj gen_teardown_safe old_teardown_window). Qed.
+Print Assumptions C19_teardown_no_release_while_server_alive.
 
 (* the request loop closes every connection descriptor exactly once (no fclose(fdopen(fd)) followed by close(fd)) *)
 Theorem C19_server_closes_each_descriptor_once : server_double_close_sites = 0.
